@@ -121,7 +121,9 @@ ApShows(n) == LET c == ApOf(n) g == GroupOps(c.items) IN IF c.ok /\ g.ok THEN [o
 FilledWidgetOK(d, a, f) ==
   LET nref == ApRefOf(d)  form == Deref(nref) IN
   /\ nref.t = "ref" /\ form.t = "stream" /\ IsName(Get(form, KI_Subtype), NI_Form)
-  /\ NumsAre(Deref(Get(form, KI_BBox)), <<0, 0, a.rect[3] - a.rect[1], a.rect[4] - a.rect[2]>>)
+  \* any bounding box of positive extent will do: the viewer maps it onto the annotation rectangle (12.5.5, Algorithm 8.1)
+  /\ (LET bb == Deref(Get(form, KI_BBox)) IN bb.t = "arr" /\ Len(bb.v) = 4 /\ (\A i \in 1..4 : IsNum(bb.v[i]) /\ ~NumParts(bb.v[i]).big)
+                                             /\ NumParts(bb.v[3]).micro > NumParts(bb.v[1]).micro /\ NumParts(bb.v[4]).micro > NumParts(bb.v[2]).micro)
   /\ ApShows(nref.n).ok /\ ApShows(nref.n).cps = f.fill
 
 AnnotOK(entry, a) ==
